@@ -45,6 +45,23 @@ def inputs(ctx, big=False):
     # internationalised hosts with unsafe ASCII in the authority; labels with character references whose upper-case form is no reference
     xs += ["http://b\u00fccher.de\" onmouseover=\"alert(1)", "http://m\u00fcnchen.example <draft>", "https://\u00e9.com\\docs", "//\u65e5\u672c.jp\"x", "http://\u00fc.de/\"", "HTTP://\u00dc.DE'<",
            "&auml;rger", "&AUML;RGER", "foo&nbsp;bar", "a&#32;&#32;b", "x &amp;lt; y", "&szlig;", "&eacute;T&Eacute;", "&nbsp;", "&#x41;&#97;", "&Auml;&auml;"]
+    # URLs assembled from their RFC 3986 components (IPv6 / IPvFuture literals with zone ids, user info, ports, IDN hosts, encoded octets),
+    # with an unsafe character dropped into each component in turn
+    unsafe = ['"', "<", ">", " ", "'", "`", "\\", "{", "|", "^", "\u00e9", "\n", "\t", "[", "]", "&quot;", "&lt;", "&#34;", "%22", "\x7f", "\u202e"]
+    hosts = ["[::1]", "[fe80::1%25eth0]", "[fe80::1%eth0]", "[2001:db8::ff00:42:8329]", "[::ffff:192.0.2.1]", "[v1.fe80::a+en1]", "[::]", "[1:2:3:4:5:6:7:8]", "[fe80::1%25]", "[::1%25a%25b]",
+             "127.0.0.1", "example.com", "b\u00fccher.de", "xn--bcher-kva.de", "%65xample.com", "localhost", "", "[", "[]", "[::1", "::1]"]
+    for _ in range(20000 if (big or not ctx.quick()) else 3000):
+        comp = [ctx.rng.choice(["http", "https", "ftp", "HTTP", "x+y.z-w", "", "mailto", "data"]), ctx.rng.choice(["://", "://", ":", "//", ":/"]), ctx.rng.choice(["", "", "user@", "u:p@", "@"]),
+                ctx.rng.choice(hosts), ctx.rng.choice(["", "", ":80", ":", ":x"]), ctx.rng.choice(["", "/", "/p/q", "/a%20b", "/%zz"]), ctx.rng.choice(["", "?a=1&b=2", "?", "?q=[x]"]), ctx.rng.choice(["", "#f", "#", "#a#b"])]
+        for _k in range(ctx.rng.randint(0, 2)):
+            j = ctx.rng.randrange(len(comp))
+            u = ctx.rng.choice(unsafe)
+            c = comp[j]
+            cut = ctx.rng.randint(0, len(c))
+            if c.endswith("]") and ctx.rng.random() < 0.6:
+                cut = len(c) - 1             # inside the bracketed literal, at its end (zone id position)
+            comp[j] = c[:cut] + u + c[cut:]
+        xs.append("".join(comp))
     for ch in ("\u212a", "\u017f", "\u0131", "\u0130"):
         xs += ["data:image/png;base64,iVBORw0%sGgo=" % ch, "http://e%sample.com/%s" % (ch, ch), "DATA:IMAGE/PNG;BASE64,%s" % ch, "javascript%s:x" % ch, "%%4%s" % ch, ch + "&amp;" + ch]
     return xs
